@@ -24,5 +24,5 @@ def run(tier):
                           "and faults; each probed at the range ends, inside and (where it exists) in the feature but outside the model's range; "
                           "relative tolerance 1e-9 (1e-8 for the 100-term series). non-trivial: all cases")
     c.assumptions += ["TLC decides the case analysis, the arithmetic comparison is numeric (exploration with a model-derived oracle)",
-                      "smooth compositions, tian2019 water content, mass conserving and slab plate-model temperatures have no documented closed form and are not claimed here"]
+                      "smooth compositions are asserted at their documented anchor values (top / bottom, centre / side) and to lie between them; tian2019 water content, mass conserving and slab plate-model temperatures have no documented closed form and are not claimed here"]
     return c.finish()
